@@ -86,12 +86,8 @@ def init_case():
             it.run_func(f_init, [])
             tls = it.env['tls']
             notes = []
-            if not is_initial(tls):
-                notes.append('init() leaves state directive=%d version=%d memo=%d' % (len(tls['IN_DIRECTIVE'].fields[0].fields),
-                             len(tls['CURRENT_VERSION'].fields[0].fields), tls['PACKRAT_STORAGE'].fields[0].data['entries']))
-            touched = it.env.get('tls_touched', set())
-            if touched != {'IN_DIRECTIVE', 'CURRENT_VERSION', 'PACKRAT_STORAGE'}:
-                notes.append('init() touches %s' % sorted(touched))
+            # informative (evidence): where the reset lives is not part of the property; the obligation is on the entries below
+            it.env['init_resets_all'] = is_initial(tls)
             return notes
         res, ex = run_paths(body)
         return mk_out('init-step', 'init', 'prior state: directive depth 0..3, version depth 0..3 (top of 9 selectors), memo entries 0..3', res, ex, t0, lambda r: r.value or [])
@@ -99,41 +95,75 @@ def init_case():
 
 
 def entry_case(name, inner):
+    """from an arbitrary prior thread state, the first sub-parser that runs after the entry is called must see the initial
+    state.  The entry AND the start symbol it calls are executed from their MIR (so it does not matter whether the reset lives
+    in init(), in the entry or at the top of the start symbol); the sub-parsers of the start symbol are stubs."""
     def work():
         t0 = time.time()
+        import gprod
         f = E.fn(name, lambda e: e.mf.crate == 'sv-parser-parser' and e.argnorm == ['LocatedSpan'])
+        prods = gprod.productions(E.prog())
+        if inner not in prods:
+            raise Inconclusive('start symbol %s not found' % inner)
 
         def body(it):
             it.env['g'] = G.GState()
             it.env['const_hook'] = G.const_hook_tls
             it.env['tls'] = {'IN_DIRECTIVE': None, 'CURRENT_VERSION': None, 'PACKRAT_STORAGE': None}
             it.env['tls'] = sym_prestate(it)
-            seen = {}
+            it.env['self_name'] = inner
+            it.env['span_returning'] = gprod.SPAN_RETURNING
+            seen = {'top': [], 'sub': []}
 
             def hook(it2, pname, path, sp, dest_ty):
-                seen.setdefault('calls', []).append((pname, is_initial(it2.env['tls']), sp.data['off']))
-                return ok(Tup([G.span(sp.data['off'] + 1), Opaque('TREE', pname)])) if it2.decide(z3.Bool('inner_ok'), 'inner_ok') else G.nom_error(it2, sp)
+                if not seen.get('in_inner'):
+                    seen['top'].append((pname, sp.data['off']))
+                    if pname != inner:
+                        return G.nom_error(it2, sp)
+                    seen['in_inner'] = True
+                    kind, bodyfn, outer = prods[inner]
+                    fb = it2.prog.func(bodyfn)
+                    if kind == 'packrat':
+                        from engine import Closure
+                        r = it2.run_func(fb, [Ref([Closure(bodyfn.closure_span or '', [Ref([sp], 0)])], 0)])
+                    else:
+                        r = it2.run_func(fb, [sp])
+                    seen['in_inner'] = False
+                    seen['inner_result'] = r
+                    return r
+                k = len(seen['sub'])
+                tls = it2.env['tls']
+                seen['sub'].append((pname, is_initial(tls), len(tls['IN_DIRECTIVE'].fields[0].fields), len(tls['CURRENT_VERSION'].fields[0].fields),
+                                    tls['PACKRAT_STORAGE'].fields[0].data['entries']))
+                if k < 3 and it2.decide(z3.Bool('sub_ok_%d' % k), 'sub_ok'):
+                    q = sp.data['off'] + 1
+                    ty = G.result_type(dest_ty) or pname
+                    return ok(Tup([G.span(q), G.anode(G.norm_type(ty), sp.data['off'], q)]))
+                return G.nom_error(it2, sp)
             it.env['production_hook'] = hook
-            mdl = it.models
             sp = G.span(0)
             r = it.concretize(it.run_func(f, [sp]))
             notes = []
-            calls = seen.get('calls', [])
-            if [c[0] for c in calls] != [inner]:
-                notes.append('%s calls %r (expected exactly %s)' % (name, [c[0] for c in calls], inner))
-            elif not calls[0][1]:
-                notes.append('%s runs %s on a thread state that is not the initial one' % (name, inner))
-            elif calls[0][2] != 0:
-                notes.append('%s does not hand its input span to %s' % (name, inner))
-            if r.variant == 'Ok' and not (type(r.fields[0].fields[1]) is Opaque and r.fields[0].fields[1].data == inner):
-                notes.append('%s does not return the result of %s' % (name, inner))
+            if seen['top'] != [(inner, 0)]:
+                notes.append('%s calls %r (expected exactly %s on its input span)' % (name, seen['top'], inner))
+            if seen['sub'] and not seen['sub'][0][1]:
+                s0 = seen['sub'][0]
+                notes.append('%s: the first sub-parser of %s (%s) runs on a thread state that is not the initial one (directive depth %d, keyword-version depth %d, memo entries %d)' % (
+                    name, inner, s0[0], s0[2], s0[3], s0[4]))
+            ir = seen.get('inner_result')
+            if ir is not None:
+                ir = it.concretize(ir)
+                if r.variant != ir.variant or (r.variant == 'Ok' and r.fields[0].fields[1] is not ir.fields[0].fields[1]):
+                    notes.append('%s does not return the result of %s' % (name, inner))
             return notes
         mdl = Models()
-        G.install(mdl, {inner})
-        ex = Explorer(E.prog(), mdl, body, max_paths=3000)
+        G.install(mdl, set(prods))
+        ex = Explorer(E.prog(), mdl, body, max_paths=6000)
         res = ex.run()
+        if ex.truncated:
+            raise Inconclusive('path budget for entry %s' % name)
         ex.models_used = dict(mdl.called)
-        return mk_out('entry-points', name, 'arbitrary prior state; grammar function stubbed (Ok/Err symbolic)', res, ex, t0, lambda r: r.value or [])
+        return mk_out('entry-points', name, 'arbitrary prior state; entry and start symbol from MIR, sub-parsers of the start symbol stubbed (Ok/Err symbolic, at most 3 successes)', res, ex, t0, lambda r: r.value or [])
     return Case('entry/' + name, work)
 
 
@@ -181,11 +211,21 @@ def statics_case():
             src = open(p, encoding='utf-8').read()
             for m in re.finditer(r'#\[recursive_parser\](?:\s*#\[[^\]]*\])*\s*pub(?:\([^)]*\))?\s+fn\s+(\w+)', src):
                 names.add(m.group(1))
-        if len(names) > 128:
-            notes.append('%d distinct #[recursive_parser] functions: nom_recursive asserts index < 128' % len(names))
+        # capacity of the flag table = 64 * RECURSIVE_FLAG_WORDS, selected by the cargo features of nom-recursive that the
+        # workspace enables (features unify over the crates of one build): none 64, tracer128 128, tracer256 256
+        feats = set()
+        for p in glob.glob(os.path.join(root, '*', 'Cargo.toml')):
+            for m in re.finditer(r'^nom-recursive\s*=\s*(.*)$', open(p, encoding='utf-8').read(), re.M):
+                feats.update(re.findall(r'"(tracer\d+)"', m.group(1)))
+            for m in re.finditer(r'\[(?:[\w.-]*dependencies)\.nom-recursive\]([^\[]*)', open(p, encoding='utf-8').read()):
+                feats.update(re.findall(r'"(tracer\d+)"', m.group(1)))
+        capacity = 256 if 'tracer256' in feats else 128 if 'tracer128' in feats else 64
+        if len(names) > capacity:
+            notes.append('%d distinct #[recursive_parser] functions but nom_recursive (features %s) asserts index < %d: the table is per thread and never reset, so a call '
+                         'panics once earlier calls on the thread have entered %d other left-recursive rules' % (len(names), sorted(feats) or 'none', capacity, capacity))
         out = {'family': 'statics', 'label': 'statics', 'text': 'static items: %s; recursive parsers: %d' % ({k: len(v) for k, v in found.items()}, len(names)),
                'real_paths': 1, 'ref_paths': 0, 'pairs': 1, 'queries': 0, 'solver_s': 0, 'steps': 0, 'models': {}, 'cex': [], 'obligations': [],
-               'case': {'statics': found, 'recursive_parsers': len(names)}}
+               'case': {'statics': found, 'recursive_parsers': len(names), 'recursive_capacity': capacity}}
         for n in notes:
             out['cex'].append({'kind': 'state', 'note': n, 'model': None, 'status': 'reproduced', 'role': 'statics'})
         out['wall'] = round(time.time() - t0, 2)
